@@ -69,21 +69,16 @@ def statusCorrect (tk : Tk) (u : User) (o : Outcome) : Bool :=
 def authenticated_iff_authenticated_exchange_full : Prop :=
   ∀ s : Scenario, s.c.compiles = true → statusCorrect s.tk s.user s.run = true
 
-/-! ### the two classes of scenarios on which the report is wrong -/
+/-! ### the class of scenarios on which the report is wrong -/
 
 /-- combined manager, LESC: OOB or pass key entry was *selected*, a Just Works exchange was
     *executed*, `lesc_pairing_completed` reports authenticated_key -/
 def falselyAuthenticated (m : Mgr) (alg : LescAlg) : Bool :=
   m == .combined && (alg == .oob || alg == .passkeyDisplay || alg == .passkeyInput)
 
-/-- LESC-only manager: `lesc_security_connection_data::local_device_pairing_status` knows only
-    unauthenticated_key, also after a numeric comparison the user confirmed -/
-def falselyUnauthenticated (m : Mgr) (l : LocalIo) (alg : LescAlg) (u : User) : Bool :=
-  m == .lesc && alg == .numericComparison && l.inp == .yesNo && u.confirms
-
 def excluded (s : Scenario) : Bool :=
   match s.run.sel with
-  | .lesc alg _ => falselyAuthenticated s.c.mgr alg || falselyUnauthenticated s.c.mgr s.c.io alg s.user
+  | .lesc alg _ => falselyAuthenticated s.c.mgr alg
   | _ => false
 
 /-! ### component lemmas (complete finite domains, decided by evaluation) -/
@@ -101,13 +96,13 @@ theorem legacy_status_correct (l : LocalIo) (alg : LegacyAlg) (rsp : Nat × Nat 
          && ((st == .noKey) == !r.done)) = true := by decide
   exact h l (LocalIo.mem_all l) alg (LegacyAlg.mem_all alg) tk (Tk.mem_all tk)
 
-/-- LESC half: the report is right exactly outside the two classes (numeric comparison is only
+/-- LESC half: the report is right exactly outside that class (numeric comparison is only
     ever selected with yes/no or keyboard input; keyboard does not compile) -/
 theorem lesc_status_correct_iff (m : Mgr) (l : LocalIo) (alg : LescAlg) (rsp : Nat × Nat × Nat) (tk : Tk)
     (u : User) (hm : m ≠ .legacy) (hnc : alg = .numericComparison → l.inp = .yesNo) :
     statusCorrect tk u
       { sel := .lesc alg rsp, rest := lescRest l alg u, status := lescStatus m alg (lescRest l alg u).done }
-      = !(falselyAuthenticated m alg || falselyUnauthenticated m l alg u) := by
+      = !(falselyAuthenticated m alg) := by
   have h : ∀ m ∈ Mgr.all, ∀ l ∈ LocalIo.all, ∀ alg ∈ LescAlg.all, ∀ u ∈ User.all,
       m ≠ .legacy → (alg = .numericComparison → l.inp = .yesNo) →
       (let r := lescRest l alg u
@@ -118,7 +113,7 @@ theorem lesc_status_correct_iff (m : Mgr) (l : LocalIo) (alg : LescAlg) (rsp : N
                   | .justWorks => false)
        (st.authenticated == a) && ((st == .unauthenticatedKey) == (r.done && !a))
          && ((st == .noKey) == !r.done))
-      = !(falselyAuthenticated m alg || falselyUnauthenticated m l alg u) := by decide
+      = !(falselyAuthenticated m alg) := by decide
   exact h m (Mgr.mem_all m) l (LocalIo.mem_all l) alg (LescAlg.mem_all alg) u (User.mem_all u) hm hnc
 
 /-- non-vacuity of `lesc_status_correct_iff`: combined manager, display + yes/no, numeric comparison -/
@@ -153,7 +148,7 @@ theorem legacy_mgr_no_lesc (c : Config) (cbHas : Bool) (io oobFlag authReq : Nat
 /-! ### the property -/
 
 /-- **C35, exact extent**: for every configuration that exists and every scenario, the three
-    clauses hold exactly outside the two named classes -/
+    clauses hold exactly outside the named class -/
 theorem authenticated_iff_authenticated_exchange_iff (s : Scenario) (hc : s.c.compiles = true) :
     statusCorrect s.tk s.user s.run = !excluded s := by
   unfold excluded Scenario.run pair
@@ -165,7 +160,7 @@ theorem authenticated_iff_authenticated_exchange_iff (s : Scenario) (hc : s.c.co
         (legacy_mgr_no_lesc _ _ _ _ _ _ _ hsel)
         (selected_nc_has_yesNo _ _ _ _ _ _ _ hc hsel)
 
-/-- **C35, partial**: outside the two named classes the reported status is authenticated_key
+/-- **C35, partial**: outside the named class the reported status is authenticated_key
     exactly after an authenticating exchange, unauthenticated_key exactly after a completed
     exchange that authenticated nothing, no_key exactly when no pairing completed -/
 theorem authenticated_iff_authenticated_exchange_partial (s : Scenario) (hc : s.c.compiles = true)
@@ -186,8 +181,7 @@ theorem no_key_iff_not_completed (s : Scenario) :
   | lesc alg rsp =>
       simp only [lescStatus]
       cases (lescRest s.c.io alg s.user).done <;> simp
-      cases s.c.mgr <;> simp
-      split <;> simp
+      cases s.c.mgr <;> simp <;> split <;> simp
 
 /-- an authenticated key is never reported for a Just-Works-selected pairing, and whenever one is
     reported after legacy pairing the central proved knowledge of a pass key or of OOB data -/
@@ -251,17 +245,34 @@ theorem oob_flag_witness :
     ∧ exchangeAuthenticated witnessOobFlag.tk witnessOobFlag.user witnessOobFlag.run = false
     ∧ statusCorrect witnessOobFlag.tk witnessOobFlag.user witnessOobFlag.run = false := by decide
 
-/-- witness 2 (`pair 1 4 0 1 0 1 0 8 0 1`): LESC-only manager with display + yes/no, remote
-    DisplayYesNo: numeric comparison, the user confirms: completed, reported unauthenticated_key -/
+/-- **C35 at full strength for `lesc_security_manager`** (with fix smsel-01): every scenario of the
+    LESC-only manager satisfies the three clauses; the manager never executes anything but Just
+    Works and numeric comparison, and reports authenticated_key exactly after the latter -/
+theorem lesc_only_status_correct (s : Scenario) (hc : s.c.compiles = true) (hm : s.c.mgr = .lesc) :
+    statusCorrect s.tk s.user s.run = true := by
+  rw [authenticated_iff_authenticated_exchange_iff s hc]
+  unfold excluded
+  split
+  · simp [falselyAuthenticated, hm]
+  · rfl
+
+/-- non-vacuity, and the scenario that was reported unauthenticated_key before fix smsel-01
+    (`pair 1 4 0 1 0 1 0 8 0 1`): LESC-only manager with display + yes/no, remote DisplayYesNo:
+    numeric comparison, the user confirms: completed, reported authenticated_key -/
 def witnessLescOnly : Scenario :=
   ⟨⟨.lesc, ⟨.yesNo, .numeric⟩, false, true⟩, false,
    ⟨.displayYesNo, false, ⟨false, false, true, false⟩⟩, .zero, .yesAtOnce⟩
 
-theorem lesc_only_nc_witness :
-    witnessLescOnly.c.compiles = true ∧ witnessLescOnly.run.rest.done = true
-    ∧ witnessLescOnly.run.status = .unauthenticatedKey
-    ∧ exchangeAuthenticated witnessLescOnly.tk witnessLescOnly.user witnessLescOnly.run = true
-    ∧ statusCorrect witnessLescOnly.tk witnessLescOnly.user witnessLescOnly.run = false := by decide
+theorem lesc_only_nc_authenticated :
+    witnessLescOnly.c.compiles = true ∧ witnessLescOnly.c.mgr = .lesc ∧ witnessLescOnly.run.rest.done = true
+    ∧ witnessLescOnly.run.status = .authenticatedKey
+    ∧ exchangeAuthenticated witnessLescOnly.tk witnessLescOnly.user witnessLescOnly.run = true := by decide
+
+/-- and a Just Works pairing with the same manager is reported unauthenticated_key -/
+example :
+    let s : Scenario := ⟨⟨.lesc, ⟨.yesNo, .numeric⟩, false, true⟩, false,
+      ⟨.noInputNoOutput, false, ⟨false, false, true, false⟩⟩, .zero, .silent⟩
+    s.run.rest.done = true ∧ s.run.status = .unauthenticatedKey := by decide
 
 /-- the full-strength statement is false of the code -/
 theorem authenticated_iff_authenticated_exchange_full_witness :
